@@ -196,6 +196,62 @@ let run_codec () =
         | _ -> "?" in
       print_endline out) (read_lines ())
 
+(* ---- json mode (Model/Json.v): serde_json text <-> Value, and the Frame codec ----
+   the scru128 text form (25 base-36 digits, value < 2^128) is the id oracle of this mode *)
+let limbs_of_hex (h : string) : int array =       (* 8 limbs of 16 bits, most significant first *)
+  let h = String.make (32 - String.length h) '0' ^ h in
+  Array.init 8 (fun k -> int_of_string ("0x" ^ String.sub h (4 * k) 4))
+let hex_of_limbs (a : int array) : string = String.concat "" (Array.to_list (Array.map (Printf.sprintf "%04x") a))
+let scru_print (i : n) : bytes =
+  let a = limbs_of_hex (hex_of_n ~width:32 i) in
+  let digits = Bytes.make 25 '0' in
+  for pos = 24 downto 0 do
+    let rem = ref 0 in
+    for k = 0 to 7 do
+      let cur = (!rem lsl 16) lor a.(k) in
+      a.(k) <- cur / 36; rem := cur mod 36
+    done;
+    Bytes.set digits pos "0123456789abcdefghijklmnopqrstuvwxyz".[!rem]
+  done;
+  bytes_of_string (Bytes.to_string digits)
+let scru_parse (b : bytes) : n option =
+  let s = string_of_bytes b in
+  if String.length s <> 25 then None
+  else begin
+    let a = Array.make 8 0 in
+    let ok = ref true in
+    String.iter (fun c ->
+        let d = match c with
+          | '0'..'9' -> Char.code c - 48 | 'a'..'z' -> Char.code c - 87 | 'A'..'Z' -> Char.code c - 55 | _ -> (ok := false; 0) in
+        let carry = ref d in
+        for k = 7 downto 0 do
+          let cur = a.(k) * 36 + !carry in
+          a.(k) <- cur land 0xffff; carry := cur lsr 16
+        done;
+        if !carry <> 0 then ok := false) s;
+    if !ok then Some (n_of_hex (hex_of_limbs a)) else None
+  end
+(* ssri::Integrity oracle: one or more `<algo>-<base64>` entries; the tie only uses single sha256/sha512 entries *)
+let hash_parse (b : bytes) : bytes option =
+  let s = string_of_bytes b in
+  let ok_b64 t = t <> "" && String.for_all (fun c -> match c with 'A'..'Z' | 'a'..'z' | '0'..'9' | '+' | '/' | '=' -> true | _ -> false) t in
+  match String.index_opt s '-' with
+  | Some k when List.mem (String.sub s 0 k) ["sha256"; "sha512"; "sha384"; "sha1"] && ok_b64 (String.sub s (k + 1) (String.length s - k - 1)) -> Some b
+  | _ -> None
+
+let run_json () =
+  List.iter (fun line ->
+      match List.filter (fun s -> s <> "") (String.split_on_char ' ' (String.trim line)) with
+      | ["J"; x] ->
+        print_endline (match parse_json (bytes_of_xhex x) with
+            | Some v -> "OK " ^ xhex_of_bytes (print_json (normalize v))
+            | None -> "ERR")
+      | ["F"; x] ->
+        print_endline (match decode_frame scru_parse hash_parse (bytes_of_xhex x) with
+            | Some f -> "OK " ^ xhex_of_bytes (encode_frame scru_print f)
+            | None -> "ERR")
+      | _ -> print_endline "?") (read_lines ())
+
 (* ---- service mode (Model/Service.v): command calls and generator lifecycles ---- *)
 let print_eframe e =
   Printf.printf "E %s %s %s %s %s %s %s %d\n" (xhex_of_bytes e.e_topic) (str_of_id e.e_ctx) (str_of_id e.e_hid)
@@ -277,6 +333,7 @@ let () =
   | [_; "codec"] -> run_codec ()
   | [_; "restart"; by_ctx] -> run_restart (by_ctx = "1")
   | [_; "service"] -> run_service ()
+  | [_; "json"] -> run_json ()
   | [_; "gen-sched"; locked; seed; steps; finish] ->
     let cfg = Schedgen.parse_cfg (read_lines ()) in
     List.iter print_endline
